@@ -653,12 +653,74 @@ def cold(args, timeout=300):
 COLD = {"quick": 3, "thorough": 40}
 
 
+_FWD_SRC = '''
+from jaxtyping import jaxtyped
+@jaxtyped(typechecker=CHECKER)
+def f(x: "Vec", y: "Vec"):
+    return "ran"
+class K:
+    @jaxtyped(typechecker=CHECKER)
+    def m(self, x: "Vec", y: "Vec") -> "Vec":
+        return x
+'''
+
+
+def arm_first_call_twins(rec):
+    """a function whose annotations name something that is defined only LATER in its module (forward references):
+    whatever the library makes of such a function, it makes the same of it whether or not the function happened to be
+    called - well-typed, ill-typed - before the name came into existence (twin histories, same later probes)"""
+    import beartype
+    import typeguard
+
+    import jaxtyping
+
+    N = np.ndarray
+
+    def A(n, dt="float32"):
+        return np.zeros((n,), dtype=dt)
+
+    def history(tc, early):
+        ns = {"CHECKER": tc, "__name__": "jtv_c12_fwd"}
+        real.exec_src(_FWD_SRC, ns)
+        k = ns["K"]()
+        for who in (ns["f"], k.m):
+            try:
+                if early == "well-typed":
+                    who(A(2), A(2))
+                elif early == "ill-typed":
+                    who(A(2), A(3))
+            except Exception:  # noqa
+                pass
+        ns["Vec"] = jaxtyping.Float[N, "n"]  # the forward reference becomes resolvable
+        out = []
+        for who in (ns["f"], k.m):
+            for args in ((A(2), A(2)), (A(2), A(3)), (A(2), A(2, "int32"))):
+                try:
+                    r = who(*args)
+                    out.append("ran" if isinstance(r, (str, np.ndarray)) else repr(r))
+                except Exception as e:  # noqa
+                    out.append(type(e).__name__)
+        return out
+
+    for cname, tc in (("typeguard", typeguard.typechecked), ("beartype", beartype.beartype)):
+        ref = history(tc, None)
+        for early in ("well-typed", "ill-typed"):
+            got = history(tc, early)
+            rec.count("first_call_twins.compared")
+            rec.case(("first-call-twins", cname, early), True)
+            if got != ref:
+                rec.violation("history-dependence", {"first_call_twins": early, "checker": cname}, f"[{cname}] function with forward-referenced annotations: later calls answer {got} when the function had been called ({early}) before the name was defined, {ref} when it had not", mechanism="earlier-call-of-the-same-function-decides-later-verdicts")
+                return
+
+
 def run_shard(rec, seed, shard, tier):
     warnings.filterwarnings("ignore")
     GT.ensure_registered()
     C04.ensure_faulty_registered()
     if shard["i"] % 4 == 1:
         real.temporaries_probe(rec, "C12")  # a verdict about a value that has died says nothing about its successor
+    if shard["i"] % 4 == 2:
+        arm_first_call_twins(rec)
     # the specification: the battery's answers in a fresh process that has done nothing else
     fresh = cold(["--battery-only"])
     if "error" in fresh:
